@@ -68,6 +68,23 @@ def permute_args(args, rnd):
         out = [next(it) if x.split('=')[0] == k else x for x in out]
     return out
 
+OPTION_SPELLINGS = {'--select': ['--select', '--choose', '-c'], '--filter': ['--filter', '--where', '-f'], '--split-by': ['--split-by', '--break-by', '-b'],
+                    '--group-by': ['--group-by', '--combine', '--merge', '-g'], '--sort-by': ['--sort-by', '--order-by', '-s'], '--skip': ['--skip', '-k'],
+                    '--take': ['--take', '--limit', '-t'], '--unique': ['--unique', '-u'], '--set': ['--set', '-e'], '--output-style': ['--output-style', '-o']}
+def spell_args(args, rnd):
+    """the same command line with option aliases, short forms and `--opt value` / `--opt=value` / `-ovalue` spellings chosen at random"""
+    out = []
+    for a in args:
+        name, eq, val = a.partition('=')
+        if name not in OPTION_SPELLINGS: out.append(a); continue
+        alt = rnd.choice(OPTION_SPELLINGS[name])
+        if not eq: out.append(alt); continue                       # a flag (or the bare --group-by = --merge)
+        if name == '--group-by': out.append(alt + '=' + val); continue         # optional value: only the = form binds it
+        form = rnd.choice(['eq', 'sep']) if not val.startswith('-') and val != '' else 'eq'
+        if alt.startswith('--'): out += [alt + '=' + val] if form == 'eq' else [alt, val]
+        else: out += [alt + '=' + val] if form == 'eq' else [alt, val]
+    return out
+
 def model_text(case):
     c = case['cfg']; L = ['CASE %s' % case['id']]
     L.append('on_error ' + c['on_error'])
